@@ -127,6 +127,28 @@ def join(ex, sep, items):
     return simplify(SStr(out))
 
 
+def _surely_different(a, b):
+    """literal prefixes / suffixes that disagree (an opaque part renders as at least one character)"""
+    pa = a.parts[0] if a.parts and isinstance(a.parts[0], str) else ''
+    pb = b.parts[0] if b.parts and isinstance(b.parts[0], str) else ''
+    n = min(len(pa), len(pb))
+    if pa[:n] != pb[:n]:
+        return True
+    sa = a.parts[-1] if a.parts and isinstance(a.parts[-1], str) else ''
+    sb = b.parts[-1] if b.parts and isinstance(b.parts[-1], str) else ''
+    n = min(len(sa), len(sb))
+    if n and sa[-n:] != sb[-n:]:
+        return True
+    # minimal lengths: a plain string shorter than the least length of the other
+    def minlen(x):
+        return sum(len(p) if isinstance(p, str) else 1 for p in x.parts)
+    if a.is_plain() and len(a.plain()) < minlen(b):
+        return True
+    if b.is_plain() and len(b.plain()) < minlen(a):
+        return True
+    return False
+
+
 def compare(ex, op, a, b):
     a, b = SStr.of(a) if isinstance(a, (str, SStr)) else a, SStr.of(b) if isinstance(b, (str, SStr)) else b
     if not isinstance(a, SStr) or not isinstance(b, SStr):
@@ -135,6 +157,8 @@ def compare(ex, op, a, b):
         if a.parts == b.parts:
             return True
         if a.is_plain() and b.is_plain():
+            return False
+        if _surely_different(a, b):
             return False
         raise Unsupported('equality of structured strings %r / %r' % (a, b))
     if op == '!=':
